@@ -187,6 +187,16 @@ fn boundary_unit(unit: &Unit, r: &mut Rng, ctx: &mut Ctx) {
                     check_both(&xd, &yd, &case, ctx);
                     ctx.end_case(case.hash(), true);
                 }
+                // limb-level damage to the exact twin (truncated to y's limb count, top limb dropped/added, one limb off)
+                for _ in 0..3 {
+                    let xv = limb_variant(r, &x, limbs.len());
+                    if xv.is_zero() { continue; }
+                    let xd = Dec::new(sg(xv), sc + k as i64);
+                    let case = Case::new("pair").push(xd.tok()).push(yd.tok());
+                    ctx.begin_case(&case);
+                    check_both(&xd, &yd, &case, ctx);
+                    ctx.end_case(case.hash(), true);
+                }
                 // the boundary word as the *unscaled* operand against something else of the same length
                 let zd = Dec::new(sg(&y + 1u8), sc + k as i64);
                 let case = Case::new("pair").push(yd.tok()).push(zd.tok());
@@ -196,7 +206,22 @@ fn boundary_unit(unit: &Unit, r: &mut Rng, ctx: &mut Ctx) {
             }
         }
     }
-    ctx.exhaustive_notes.push("C02 boundary words: all k=1..19 x 1..6 limbs x {floor(2^64/10^k), floor(2^32/10^k), floor((2^64-1)/10^k)} +-{0,1,2} in every limb, twin and twin+-1, both signs".to_string());
+    ctx.exhaustive_notes.push("C02 boundary words: all k=1..19 x 1..6 limbs x {floor(2^64/10^k), floor(2^32/10^k), floor((2^64-1)/10^k)} +-{0,1,2} in every limb, twin, twin+-1 and limb-damaged twins, both signs".to_string());
+}
+
+/// The exact twin `x` (= y * 10^k) with one 32-bit limb dropped, added, truncated or altered
+fn limb_variant(r: &mut Rng, x: &BigInt, other_limbs: usize) -> BigInt {
+    let sign = x.sign();
+    let mut limbs: Vec<u32> = x.magnitude().iter_u32_digits().collect();
+    match r.below(6) {
+        0 => { limbs.truncate(other_limbs.max(1)); }                 // low limbs only (carry out of the top is lost)
+        1 => { if limbs.len() > 1 { limbs.pop(); } }                  // top limb dropped
+        2 => { limbs.push(1); }                                       // extra top limb
+        3 => { let i = r.below(limbs.len() as u64) as usize; limbs[i] = limbs[i].wrapping_add(1); }
+        4 => { let i = r.below(limbs.len() as u64) as usize; limbs[i] = limbs[i].wrapping_sub(1); }
+        _ => { let i = r.below(limbs.len() as u64) as usize; limbs[i] ^= 1 << r.below(32); }
+    }
+    BigInt::from_biguint(if sign == Sign::NoSign { Sign::Plus } else { sign }, BigUint::new(limbs))
 }
 
 fn straddle(r: &mut Rng) -> BigInt {
@@ -225,6 +250,11 @@ fn random_pair(r: &mut Rng, lmax: usize) -> (Dec, Dec) {
             let k = if r.bool() { r.range(1, 19) } else { r.range(20, 80) };
             let d = r.range(-1, 1);
             let mut b = Dec::new(&a.n * pow10(k as u64) + d, a.s + k);
+            if r.chance(1, 3) {
+                // limb-level damage to the twin: what a word-wise comparison loop could overlook
+                b.n = limb_variant(r, &(&a.n * pow10(k as u64)), a.n.magnitude().iter_u32_digits().len());
+                if b.n.is_zero() { b.n = BigInt::one(); }
+            }
             if r.below(8) == 0 { b = b.neg(); }
             if r.bool() { (a, b) } else { (b, a) }
         }
